@@ -45,6 +45,10 @@ func verifHarness_Z1_RoundTrip() {
 
 // verifHavocSerializer fills every reusable field of s with arbitrary contents (what any history of
 // earlier calls could have left behind; the compression mode fields are left as set).
+// capacity that Serialize considers sufficient for its tag/value scratch buffers under the scaling every lemma using this
+// havoc runs with (tagBufSize 4, valBufSize 16); with the real 64 KiB constants it is simply too small and they are reallocated
+const verifSerBufCap = 24
+
 func verifHavocSerializer(s *Serializer) {
 	s.stringBuf = nondetBytes("stale.stringBuf", 4)[:verifChoice("stale.stringBuf.len", 3)]
 	for i := range s.stringsTable {
@@ -53,6 +57,15 @@ func verifHavocSerializer(s *Serializer) {
 	s.sMsg = nondetBytes("stale.sMsg", 3)
 	s.tagsBuf = nondetBytes("stale.tagsBuf", 3)
 	s.valuesBuf = nondetBytes("stale.valuesBuf", 3)
+	if verifChoice("stale.bufs.big", 2) == 1 {
+		// as an earlier Serialize allocated them and an earlier Deserialize left them: full capacity, non-zero length, old contents
+		vb := make([]byte, 3, verifSerBufCap)
+		copy(vb, s.valuesBuf)
+		s.valuesBuf = vb
+		tb := make([]byte, 3, verifSerBufCap)
+		copy(tb, s.tagsBuf)
+		s.tagsBuf = tb
+	}
 	s.valuesCompBuf = nondetBytes("stale.valuesCompBuf", 3)
 	s.tagsCompBuf = nondetBytes("stale.tagsCompBuf", 3)
 }
